@@ -87,28 +87,48 @@ class DriverHang(Exception):
 
 
 class Driver(object):
-    def __init__(self, exe):
-        self.p = subprocess.Popen([exe], stdin=subprocess.PIPE, stdout=subprocess.PIPE,
-                                  text=True, bufsize=1)
+    RPC_TIMEOUT_S = 8.0
 
-    RPC_TIMEOUT_S = 20.0
+    def __init__(self, exe):
+        # binary, unbuffered pipes: select() on the descriptor must see everything that
+        # has not been consumed yet (a buffered reader would hide lines from it)
+        self.p = subprocess.Popen([exe], stdin=subprocess.PIPE, stdout=subprocess.PIPE,
+                                  bufsize=0)
+        self._buf = b""
+
+    def _readline(self):
+        import os
+        import select
+        import time
+
+        deadline = time.time() + self.RPC_TIMEOUT_S
+        fd = self.p.stdout.fileno()
+        while b"\n" not in self._buf:
+            left = deadline - time.time()
+            r = select.select([fd], [], [], max(left, 0))[0] if left > 0 else []
+            if not r:
+                self.p.kill()
+                raise DriverHang(f"no answer from the STRL back-end within "
+                                 f"{self.RPC_TIMEOUT_S:.0f}s")
+            chunk = os.read(fd, 1 << 16)
+            if not chunk:
+                raise RuntimeError("STRL driver died")
+            self._buf += chunk
+        line, self._buf = self._buf.split(b"\n", 1)
+        return line.decode("utf-8", "replace")
 
     def _rpc(self, text):
-        import select
-
-        self.p.stdin.write(text)
+        self.p.stdin.write(text.encode())
         self.p.stdin.flush()
         # the back-end answers in milliseconds; a silent driver is a non-terminating
-        # compilation (reported by the caller), never something to wait out
-        r, _w, _x = select.select([self.p.stdout], [], [], self.RPC_TIMEOUT_S)
-        if not r:
-            self.p.kill()
-            raise DriverHang(f"no answer from the STRL back-end within "
-                             f"{self.RPC_TIMEOUT_S:.0f}s")
-        line = self.p.stdout.readline()
-        if not line:
-            raise RuntimeError("STRL driver died")
-        return json.loads(line)
+        # compilation (reported by the caller), never something to wait out.  The
+        # back-end also prints diagnostics of its own on stdout in some branches (e.g.
+        # "[CapConstraint] Registering usage ..." in the range-based discretisation);
+        # protocol answers are single JSON objects.
+        while True:
+            line = self._readline()
+            if line.startswith("{"):
+                return json.loads(line)
 
     def load(self, tree):
         return self._rpc("reset\n" + tree_to_text(tree) + "end\n")
@@ -119,7 +139,7 @@ class Driver(object):
 
     def close(self):
         try:
-            self.p.stdin.write("quit\n")
+            self.p.stdin.write(b"quit\n")
             self.p.stdin.flush()
             self.p.wait(timeout=2)
         except Exception:  # noqa: B902
